@@ -247,7 +247,7 @@ func (g *G) outputExpr() string {
 				t = g.typ("struct")
 			}
 			usedT[t.Name] = true
-			if len(usedT) > 1 && g.R.Chance(1, 2) {
+			if len(usedT) == 2 && g.R.Chance(2, 3) || len(usedT) > 2 && g.R.Chance(1, 2) {
 				// asterisk and named targets mixed in one list
 				return "&" + t.Name + "." + g.tag(t)
 			}
